@@ -550,43 +550,53 @@ async fn handle_streaming_pull_request(
         &request.modify_deadline_seconds,
     )?;
 
-    // Ack messages if appropriate.
-    if !ack_ids.is_empty() {
-        let start = ActivitySpan::start();
-        let ack_id_count = ack_ids.len();
-        subscription
-            .acknowledge_messages(ack_ids)
-            .await
-            .map_err(|e| match e {
-                AcknowledgeMessagesError::Closed => conflict(),
-            })?;
+    // Applying the request takes up to two round trips to the subscription (the acks, then
+    // the deadline modifications). They belong together: if the stream goes away in between
+    // (the client disconnects), the request would be half applied. Both are therefore done
+    // by a task of their own, which runs to completion regardless of the stream.
+    tokio::spawn(async move {
+        // Ack messages if appropriate.
+        if !ack_ids.is_empty() {
+            let start = ActivitySpan::start();
+            let ack_id_count = ack_ids.len();
+            subscription
+                .acknowledge_messages(ack_ids)
+                .await
+                .map_err(|e| match e {
+                    AcknowledgeMessagesError::Closed => conflict(),
+                })?;
 
-        log::debug!(
-            "{}: acked {} messages {}",
-            &subscription.name,
-            ack_id_count,
-            start
-        );
-    }
+            log::debug!(
+                "{}: acked {} messages {}",
+                &subscription.name,
+                ack_id_count,
+                start
+            );
+        }
 
-    // Extend deadlines if requested to do so.
-    if !deadline_modifications.is_empty() {
-        let start = ActivitySpan::start();
-        let modifications_count = deadline_modifications.len();
-        subscription
-            .modify_ack_deadlines(deadline_modifications)
-            .await
-            .map_err(|e| match e {
-                ModifyDeadlineError::Closed => conflict(),
-            })?;
+        // Extend deadlines if requested to do so.
+        if !deadline_modifications.is_empty() {
+            let start = ActivitySpan::start();
+            let modifications_count = deadline_modifications.len();
+            subscription
+                .modify_ack_deadlines(deadline_modifications)
+                .await
+                .map_err(|e| match e {
+                    ModifyDeadlineError::Closed => conflict(),
+                })?;
 
-        log::debug!(
-            "{}: modified {} deadlines {}",
-            &subscription.name,
-            modifications_count,
-            start
-        );
-    }
+            log::debug!(
+                "{}: modified {} deadlines {}",
+                &subscription.name,
+                modifications_count,
+                start
+            );
+        }
+
+        Ok::<(), Status>(())
+    })
+    .await
+    .unwrap_or_else(|_| Err(conflict()))?;
 
     // We never actually return any responses, but it helps with the necessary type inference
     // for the async stream.
